@@ -10,20 +10,23 @@
    names (so tempdir/target lies inside the temp dir), members that are absolute or climb above the root are
    never part of it, targets are pairwise distinct - and prints one scenario line per archive x pattern.
 
-   Driver domain (narrower reading, see checks/c20.py): no two members of an archive denote the same raw name
-   (the zip writer refuses duplicates) or the same target path (aliases like a.dlt and ./a.dlt would overwrite
-   each other - which content survives is not fixed by the statement).                                      *)
+   Driver domain (narrower reading, see checks/c20.py): no two members of an archive have the same raw name (the zip
+   writer refuses duplicates).  With AllowAlias members may denote the same target path (a.dlt and ./a.dlt): which
+   member's content survives is not fixed by the statement - the contract accepts the bytes of ANY ONE member that
+   denotes the path and was requested so far, never a mixture.                                      *)
 EXTENDS ExtractDefs, TLC, Json
 
 CONSTANTS Names,        \* set of file member names (component sequences)
           DirNames,     \* set of directory member names
           MaxMembers,
           GlobClasses,  \* subset of {"all","ext","dirp","exact","nofilter"}
-          MinReq, MaxReq,   \* length of the request history ("nofilter" = extract_to_dir without filter only as a single request)
+          MinReq, MaxReq,   \* length of the request history; a history is either all "nofilter" (extract_to_dir without filter into
+                            \* ONE directory; request j extracts version j of the archive: same names, other contents) or has none
+          AllowAlias,       \* TRUE: members may denote the same target path through "." / "" / "d/.." components (a.dlt, ./a.dlt)
           Emit
 
-VARIABLES ms, gs
-vars == <<ms, gs>>
+VARIABLES ms, gs, junk      \* junk: the target paths of a nofilter history hold LONGER files before the first extraction
+vars == <<ms, gs, junk>>
 
 FileMembers == {[name |-> n, dir |-> FALSE, pre |-> p] : n \in Names, p \in BOOLEAN}
 DirMembers == {[name |-> n, dir |-> TRUE, pre |-> FALSE] : n \in DirNames}
@@ -32,7 +35,7 @@ Members == {m \in FileMembers \cup DirMembers : m.pre => ~Enclosed(m.name)}
 
 NoAlias(a) == \A i, j \in 1..Len(a) : i < j =>
                  /\ ~(a[i].name = a[j].name /\ a[i].dir = a[j].dir)
-                 /\ ~(~a[i].dir /\ ~a[j].dir /\ Enclosed(a[i].name) /\ Enclosed(a[j].name) /\ Norm(a[i].name) = Norm(a[j].name))
+                 /\ (AllowAlias \/ ~(~a[i].dir /\ ~a[j].dir /\ Enclosed(a[i].name) /\ Enclosed(a[j].name) /\ Norm(a[i].name) = Norm(a[j].name)))
                  \* raw names that resolve (lexically) to the same place also share the pre-existing file
                  /\ ~(~Enclosed(a[i].name) /\ ~Enclosed(a[j].name) /\ a[i].name # a[j].name /\ Norm(a[i].name) = Norm(a[j].name)
                       /\ (a[i].name[1] = "/") = (a[j].name[1] = "/"))
@@ -41,9 +44,10 @@ Globs(a) == {[cls |-> c, k |-> 0] : c \in GlobClasses \ {"exact"}}
             \cup (IF "exact" \in GlobClasses THEN {[cls |-> "exact", k |-> k] : k \in {i \in 1..Len(a) : ~a[i].dir}} ELSE {})
 
 Histories(a) == {h \in UNION {[1..k -> Globs(a)] : k \in MinReq..MaxReq} :
-                    Len(h) > 1 => \A j \in 1..Len(h) : h[j].cls # "nofilter"}
+                    (\A j \in 1..Len(h) : h[j].cls # "nofilter") \/ (\A j \in 1..Len(h) : h[j].cls = "nofilter")}
 Init == /\ ms \in Archives
         /\ gs \in Histories(ms)
+        /\ junk \in (IF gs[1].cls = "nofilter" THEN BOOLEAN ELSE {FALSE})
 Next == UNCHANGED vars
 Spec == Init /\ [][Next]_vars
 
@@ -52,9 +56,12 @@ Spec == Init /\ [][Next]_vars
 ExpectedUpTo(j) == UNION {Expected(gs[q], ms) : q \in 1..j}
 Confined == \A i \in ExpectedUpTo(Len(gs)) : Plain(Target(ms, i)) /\ Last(Target(ms, i)) \in FileTokens
 NeverHostile == \A i \in 1..Len(ms) : (ms[i].name[1] = "/" \/ ms[i].name[1] = "..") => i \notin ExpectedUpTo(Len(gs))
-DistinctTargets == \A i, j \in ExpectedUpTo(Len(gs)) : i # j => Target(ms, i) # Target(ms, j)
+DistinctTargets == AllowAlias \/ \A i, j \in ExpectedUpTo(Len(gs)) : i # j => Target(ms, i) # Target(ms, j)
+Aliased == \E i, j \in 1..Len(ms) : i # j /\ ~ms[i].dir /\ ~ms[j].dir /\ Enclosed(ms[i].name) /\ Enclosed(ms[j].name)
+                                      /\ Target(ms, i) = Target(ms, j)
 ExactMatchesItself == \A q \in 1..Len(gs) : gs[q].cls = "exact" => Matches(gs[q], ms, gs[q].k)
 
-EmitScn == Emit => PrintT(<<"SCN", ToJson([members |-> ms, globs |-> gs,
+EmitScn == Emit => PrintT(<<"SCN", ToJson([members |-> ms, globs |-> gs, junk |-> junk, aliased |-> Aliased,
+                                            targets |-> [i \in 1..Len(ms) |-> IF ~ms[i].dir /\ Enclosed(ms[i].name) THEN Target(ms, i) ELSE <<>>],
                                             expected |-> [q \in 1..Len(gs) |-> [i \in 1..Len(ms) |-> i \in Expected(gs[q], ms)]]])>>)
 =============================================================================
